@@ -349,7 +349,7 @@ def run_registration(repo: Repo, res: Result, rule: str) -> int:
         if ok:
             detail = f"{what} only if it is a .py file that is not excluded"
         elif improper and not implies(f, f_not(atom("EXCL"))):
-            detail = f"the exclusion patterns are matched against `{show_loc(loc(improper[0]))}` instead of the file's own path before the {what.split()[1]}"
+            detail = f"the exclusion patterns are matched against `{show_loc(loc(improper[0]))}` instead of the file's own path before it is {what.split()[1]}"
         else:
             detail = f"a {what.replace('file ', 'file is ')} without the exclusion / file-type test on its path (guard: {show_formula(_readable(f))})"
         res.add(rule, key + f" [{what}]", ok, detail, where(e.fi, e.node), kind="dominance")
